@@ -51,6 +51,7 @@ def outcome(tr):
 
 class C16(Prop):
     id = 'C16'
+    k2_mask = {('server', 'busy_time'), ('server', 'total_time'), ('server', 'wrapped'), ('server', '*'), ('top', 'now'), ('rec', '*'), ('rec', 'arr'), ('rec', 'sst'), ('rec', 'send'), ('rec', 'exit'), ('rec', 'server')}
     num = 16
     regions = {'quick': [('core', 1)]}
     rule = ('one case = one pair of observed runs of the same tie-free network and seed: a single simulate_until_max_time(T) and 2-5 successive '
@@ -116,6 +117,18 @@ class C16(Prop):
         oa, ob = outcome(a), outcome(b)
         v = drv.ask(self.num, sx.dump([oa, ob]))
         res['verdict'] = v
+        # K2: the engine model follows the split run event by event, including the wrap-up at every pause
+        import engine_k2
+        if v[0] == 'A' and engine_k2.in_scope(cfg):
+            obs.SCALE = DEN
+            try:
+                k2 = engine_k2.check_trace(b, drv, max_frames=60, mask=self.k2_mask)
+            finally:
+                obs.SCALE = old
+            res['k2'] = {'frames': k2['frames'], 'other': k2['other']}
+            if k2['mismatch']:
+                res['soft'] = {'clause': 900, 'frame': k2['mismatch'].get('frame'), 'k2': k2['mismatch'], 'finding': None, 'detail': k2['mismatch'],
+                               'cfg': {'replay_job': {'custom': 'pair', 'cfg_pair': cfg, 'dseed': job['dseed']}}}
         busy_at_pause = any(s['busy'] for e in b.run_ends[:-1] for n in e['final']['nodes'] for s in (n['servers'] or []))
         res['nontrivial'] = bool(busy_at_pause) and len(a.frames) >= 10
         res['stats'] = {'pairs_compared': 1, 'calls_in_split_runs': len(cfg['run_split']), 'events_in_single_runs': len(a.frames),
